@@ -36,7 +36,7 @@ CHECKS.update({
          "Non-overlap is checked; the happens-before edge between consecutive Receives is not separately checked (the executor's race detector is not enabled here). Preemption bound 2.", "symbolic execution of go/ssa with a bounded-preemption scheduler + z3", "§5 C02"),
  "C03": ("Same inbox unit as C01: at quiescence (every goroutine finished, nobody sends any more) all accepted messages were handled, the ring is empty and the status is idle, for every interleaving of Send (push, try-schedule) with the worker's last empty pop, its running->idle transition, its re-check and with Start, within preemption bound 2.",
          "Bounds: 2 (thorough 3) senders x 2 messages, ring size 1..2, preemption bound 2.", "symbolic execution of go/ssa with a bounded-preemption scheduler + z3", "§5 C03"),
- "C08": ("Threaded execution of the real process/Context/SafeMap/Inbox code on a supervision tree (depth 1, thorough 2; fan-out 2): each node checks, at the instant it handles Stopped, that all its descendants have handled Stopped and are unregistered; the stop context's cancellation instant is checked the same way; Children()/Parent() are probed after a child stopped on its own. Shutdown by Stop or Poison, optionally racing with a third party poisoning a child. Two reproduced defects are listed as known findings.",
+ "C08": ("Threaded execution of the real process/Context/SafeMap/Inbox code on a supervision tree (depth 1, fan-out 2): each node checks, at the instant it handles Stopped, that all its descendants have handled Stopped and are unregistered; the stop context's cancellation instant is checked the same way; Children()/Parent() are probed after a child stopped on its own. Shutdown by Stop or Poison, optionally racing with a third party poisoning a child. Two reproduced defects are listed as known findings.",
          "Preemption bound 1 (thorough 2); children crashing during shutdown are outside the claim; native replays see Go's random map order and are attempted several times.", "symbolic execution of go/ssa with a bounded-preemption scheduler + z3", "§5 C08"),
  "C09": ("Event-stream unit: the real eventStream receiver, Engine.send/SendLocal/BroadcastEvent/Subscribe/Unsubscribe and Registry on a bare engine, over every history of 4 (thorough 5) symbolic operations (subscribe/unsubscribe with the same or an equal PID object, broadcast, send to an unregistered local PID with/without sender, send to a foreign address without remote, send to nil, a subscriber stops while subscribed). Oracle: no panic, each undeliverable message is reported exactly once with its target, message and sender to every live subscriber, and the event queue drains (finite events).",
          "The event stream's own inbox is replaced by a queue the harness drains; 'finite' is checked as 'drains within 30 handled events per operation'.", "symbolic execution of go/ssa + z3, event-stream unit harness", "§5 C09"),
